@@ -143,6 +143,12 @@ func stripComment(s string) string {
 func parseClause(rest, file string, line int) (*Clause, error) {
 	rest = strings.TrimSpace(rest)
 	c := &Clause{File: file, Line: line}
+	if strings.HasPrefix(rest, "[C") {
+		if i := strings.Index(rest, "]"); i > 0 {
+			c.Props = splitList(rest[1:i])
+			rest = strings.TrimSpace(rest[i+1:])
+		}
+	}
 	if m := labelRe.FindStringSubmatch(rest); m != nil {
 		c.Label = m[1]
 		rest = strings.TrimSpace(m[2])
